@@ -16,8 +16,9 @@ class Cfg:
     """One flag set, as a model record (TLA+) and as real CLI flags."""
 
     def __init__(self, name, num=False, bool=False, ips=False, ns=False, eager=False, re=None, replacement=None,
-                 encrypt=False, match_keys=("zzsecretA",)):
+                 encrypt=False, match_keys=("zzsecretA",), eager_ns=None, nodrift=False):
         self.name, self.num, self.bool, self.ips, self.ns, self.eager = name, num, bool, ips, ns, eager
+        self.eager_ns, self.nodrift = eager_ns, nodrift
         self.re, self.replacement, self.encrypt = re, replacement, encrypt
         self.match_keys = tuple(match_keys)
 
@@ -25,10 +26,10 @@ class Cfg:
         b = lambda x: "TRUE" if x else "FALSE"
         return ("[num |-> %s, bool |-> %s, ips |-> %s, ns |-> %s, eagerOn |-> %s, re |-> %s, anch |-> %s, matchKeys |-> {%s}]" %
                 (b(self.num), b(self.bool), b(self.ips), b(self.ns), b(self.eager), b(self.re is not None),
-                 b(self.re == "anch"), ",".join('"%s"' % k for k in self.match_keys) if self.re else ""))
+                 b(self.re in ("anch", "anch1")), ",".join('"%s"' % k for k in self.match_keys) if self.re else ""))
 
     def regexp(self):
-        return {None: None, "unanch": "zzsecret", "anch": "^(zzsecretA|zzsecretB|zzsecret[0-9]+)$",
+        return {None: None, "unanch": "zzsecret", "anch": "^(zzsecretA|zzsecretB|zzsecret[0-9]+)$", "anch1": "^zzsecretA$",
                 "ci": "(?i)ZZSECRET"}[self.re]
 
     def flags(self):
@@ -37,7 +38,7 @@ class Cfg:
         if self.bool: f.append("-b")
         if self.ips: f.append("-i")
         if self.ns: f.append("-w")
-        if self.eager: f += ["-f", EAGER_NS]
+        if self.eager: f += ["-f", self.eager_ns or EAGER_NS]
         if self.re: f += ["-z", self.regexp()]
         if self.replacement is not None: f += ["-r", self.replacement]
         return f
@@ -299,7 +300,9 @@ class Concretiser:
                     ["IX", "SCAN", "IXSCAN", "X"],
                     ["deadbeef", "cafe01", "0123456789abcdef", "beef"],
                     ["Zfn%da.sub" % i, "a.b", "Zfn%da.Zfn%db" % (i, i), "b.a.b"],
-                    ["abcdefghijklmnopqrst", "abcdefghij", "klmnopqrst", "Zfn%de" % i]]
+                    ["abcdefghijklmnopqrst", "abcdefghij", "klmnopqrst", "Zfn%de" % i],
+                    # dotted paths whose later components start with a digit but are names, not array positions
+                    ["Zfn%da.3dModel%d" % (i, i), "Zfn%db.0a1b2c%d" % (i, i), "Zfn%dc.2ndLine" % i, "Zfn%dd.7" % i]]
             self._fam = fams[0] if v == 0 else fams[self.rng.randrange(len(fams))]
         return self._fam
 
@@ -327,7 +330,13 @@ class Concretiser:
                 coll = "$cmd"
             osh = "Otq%dz" if v == 0 else rng.choice(["Otq%dz", "Otq%dz.sub%dq", "system.buckets.Otq%dz", "77%d33", "Otq%dz.20%d"])
             db = "Dbq%dz" % i
-            if v > 0 and rng.random() < 0.2:
+            if v in (1, 2):
+                # variants 1 and 2 of a case are consecutive lines of a batch: their databases are D and D_t (one name a proper prefix of
+                # the other); every fifth D is an all-digit (tenant-id style) name
+                db = ("70%d93" % i) if i % 5 == 0 else ("Dbq%dz" % i)
+                if v == 2:
+                    db += "_t"
+            elif v > 0 and rng.random() < 0.2:
                 db = "70%d93" % i              # tenant-id style: an all-digit database name
             if v > 0 and rng.random() < 0.15:
                 coll = rng.choice(["66%d17", "Clq%dz.20%d", "ledger%d.%d"])
@@ -357,7 +366,13 @@ class Concretiser:
                         k2 = self.key_for(k2)
                     kv.append((k2, self.build(v, path + (k2,))))
                 return ('obj', kv)
-            return ('arr', [self.build(v, path + (i,)) for i, v in enumerate(tree["a"])])
+            elems = tree["a"]
+            if (getattr(self, "pad_arrays", False) and self.variant > 0 and 0 < len(elems) <= 3 and self.rng.random() < 0.2
+                    and all(isinstance(e, list) and len(e) >= 2 and e[1] in ("user", "any") for e in elems)):
+                # a long operand list: numbers at the first, middle and last position, the original elements in between
+                num = ["num", elems[0][1]]
+                elems = [num] + list(elems) + [num] * (39 - len(elems))
+            return ('arr', [self.build(v, path + (i,)) for i, v in enumerate(elems)])
         return self.leaf(tree, path)
 
     def line(self, tree, line_id):
@@ -624,6 +639,7 @@ def process_chunk(args):
                 c = Concretiser(seed, chunk_no * 100000 + i, v, keymap=keymap, styles=opts.get("styles"))
                 c.ns_style = bool(opts.get("ns_style"))
                 c.clash = bool(opts.get("clash"))
+                c.pad_arrays = bool(opts.get("pad_arrays"))
                 c.fn_style = bool(opts.get("fn_style"))
                 c.nsrel_by_variant = bool(opts.get("fn_style"))
                 tree = c.line(rec["in"], gid)
@@ -659,7 +675,7 @@ def process_chunk(args):
             judge(byc, res)
             if opts.get("drift", True):
                 for name, r in byc.items():
-                    if r.variant != 0:
+                    if r.variant != 0 or getattr(r.cfg, "nodrift", False):
                         continue
                     if opts.get("fn_style"):
                         # C15 concretises the namespace relation by variant (variant 0 = equal): the prediction belongs to the
@@ -689,9 +705,9 @@ def process_chunk(args):
 class Replay:
     """Streams TLC records into a process pool; merges what the workers report into a common.Verdict."""
 
-    def __init__(self, build, verdict, cfgs, judge_name, variants=1, chunk=1500, keymap=None, styles=None, drift=True, worker=None, ns_style=False, fn_style=False, clash=False):
+    def __init__(self, build, verdict, cfgs, judge_name, variants=1, chunk=1500, keymap=None, styles=None, drift=True, worker=None, ns_style=False, fn_style=False, clash=False, pad_arrays=False):
         self.b, self.v, self.cfgs = build, verdict, cfgs
-        self.opts = {"seed": verdict.seed, "variants": variants, "keymap": keymap, "styles": styles, "drift": drift, "ns_style": ns_style, "fn_style": fn_style, "clash": clash}
+        self.opts = {"seed": verdict.seed, "variants": variants, "keymap": keymap, "styles": styles, "drift": drift, "ns_style": ns_style, "fn_style": fn_style, "clash": clash, "pad_arrays": pad_arrays}
         self.pool = multiprocessing.get_context("fork").Pool(
             common.NCPU, initializer=_worker_init,
             initargs=({"cli": build.cli, "root": build.root, "inproc": build.inproc}, cfgs, judge_name, self.opts))
